@@ -14,6 +14,11 @@
 (* an exception wherever Python raises.  UndoOnFail says whether a failing *)
 (* __init__ removes what it had registered (code before the fix: FALSE).   *)
 (*                                                                         *)
+(* DIP line kinds: "unit" ($unit definition), "use"/"conv"/"cond" (a node with a unit, a          *)
+(* modification in another unit, a logical expression: scopes whose body succeeds), "bad"/        *)
+(* "convbad" (body raises: malformed $unit, inconvertible modification), "nest" (numerical        *)
+(* expression: opens a second scope over the same units inside the first, which fails as soon as  *)
+(* a custom unit exists).                                                                          *)
 (* API-level history `hist` (what a caller can do and see) is what the     *)
 (* replay harness executes: Open(units) -> ok | fail, Close(id),           *)
 (* DipParse(text) -> ok | fail, each with the table contents the IDEAL     *)
@@ -50,9 +55,12 @@ Idle == Registering = {} /\ dip = NoDip
 IdealSyms == DOMAIN Table0 \cup UNION {{c.units[j].sym : j \in 1..Len(c.units)} : c \in {x \in scopes : x.phase = "open"}}
 Custom(tb) == {s \in DOMAIN tb : tb[s].owner # 0}
 Obs == [custom |-> Custom(table), ntypes |-> Len(types),
+        ctypes |-> {types[j] : j \in 1..Len(types)} \ {BaseTypes[j] : j \in 1..Len(BaseTypes)},
         basek |-> {s \in DOMAIN Table0 : s \in DOMAIN table /\ table[s].owner = 0}]
+OpenTypes == UNION {{c.units[j].typ : j \in 1..Len(c.units)} \ {""} : c \in {x \in scopes : x.phase = "open"}}
 IdealObs == [custom |-> IdealSyms \ DOMAIN Table0,
-             ntypes |-> Len(BaseTypes) + Cardinality(UNION {{c.units[j].typ : j \in 1..Len(c.units)} \ {""} : c \in {x \in scopes : x.phase = "open"}}),
+             ctypes |-> OpenTypes \ {BaseTypes[j] : j \in 1..Len(BaseTypes)},
+             ntypes |-> Len(BaseTypes) + Cardinality(OpenTypes \ {BaseTypes[j] : j \in 1..Len(BaseTypes)}),
              basek |-> DOMAIN Table0]
 
 Log(op, arg, res) == hist' = Append(hist, [op |-> op, arg |-> arg, res |-> res, expect |-> IdealObs'])
@@ -82,14 +90,26 @@ FailInit(c) ==
 \* one iteration of the registration loop of the innermost running constructor
 Register(c) ==
   /\ c.phase = "registering" /\ c.k < Len(c.units)
-  /\ LET u == c.units[c.k + 1] IN
+  /\ LET u == c.units[c.k + 1]
+         newtype == u.typ # "" /\ u.typ \notin ToSet(types)
+         types2  == IF newtype THEN <<u.typ>> \o types ELSE types
+         c2      == [c EXCEPT !.new_types = IF newtype THEN Append(c.new_types, u.typ) ELSE c.new_types]
+     IN
      IF u.sym \in DOMAIN table
      THEN /\ FailInit(c) /\ UNCHANGED nextid                                 \* "Unit with this symbol already exists"
+     ELSE IF u.bad
+     THEN \* malformed definition (no magnitude): the conversion type has been inserted and remembered,
+          \* then building the table row raises
+          /\ UNCHANGED nextid
+          /\ IF UndoOnFail
+             THEN /\ table' = RemoveAll(table, ToSet(c2.new_units))
+                  /\ types' = RemoveTypes(types2, c2.new_types)
+                  /\ scopes' = scopes \ {c}
+             ELSE /\ UNCHANGED table /\ types' = types2 /\ scopes' = scopes \ {c}
      ELSE /\ table' = [s \in DOMAIN table \cup {u.sym} |-> IF s = u.sym THEN Row(c.id, u.sym) ELSE table[s]]
-          /\ types' = IF u.typ # "" /\ u.typ \notin ToSet(types) THEN <<u.typ>> \o types ELSE types
+          /\ types' = types2
           /\ scopes' = (scopes \ {c}) \cup
-                {[c EXCEPT !.k = c.k + 1, !.new_units = Append(c.new_units, u.sym),
-                           !.new_types = IF u.typ # "" /\ u.typ \notin ToSet(types) THEN Append(c.new_types, u.typ) ELSE c.new_types]}
+                {[c2 EXCEPT !.k = c.k + 1, !.new_units = Append(c.new_units, u.sym)]}
           /\ UNCHANGED nextid
 
 \* check_unique_symbols() after the loop
@@ -125,7 +145,7 @@ ApiRegister ==
   /\ dip = NoDip /\ Registering # {}
   /\ LET c == Running IN
      /\ Register(c)
-     /\ IF c.units[c.k + 1].sym \in DOMAIN table
+     /\ IF c.units[c.k + 1].sym \in DOMAIN table \/ c.units[c.k + 1].bad
         THEN Log("open", c.units, "fail") ELSE UNCHANGED hist
   /\ UNCHANGED dip
 
@@ -173,12 +193,12 @@ DipBody ==
          ln == dip.text[dip.i]
          dup == ln.kind = "unit" /\ ln.sym \in {dip.units[j].sym : j \in 1..Len(dip.units)}
      IN /\ Close(c)
-        /\ IF ln.kind = "bad" \/ dup
+        /\ IF ln.kind \in {"bad", "convbad"} \/ dup \/ (ln.kind = "nest" /\ dip.units # <<>>)
            THEN /\ dip' = NoDip /\ Log("dip", dip.text, "fail")
            ELSE IF dip.i = Len(dip.text)
            THEN /\ dip' = NoDip /\ Log("dip", dip.text, "ok")
            ELSE /\ dip' = [dip EXCEPT !.i = dip.i + 1, !.sc = 0,
-                                      !.units = IF ln.kind = "unit" THEN Append(dip.units, [sym |-> ln.sym, pfx |-> {}, typ |-> ""]) ELSE dip.units]
+                                      !.units = IF ln.kind = "unit" THEN Append(dip.units, [sym |-> ln.sym, pfx |-> {}, typ |-> "", bad |-> FALSE]) ELSE dip.units]
                 /\ UNCHANGED hist
 
 DipStep == DipOpenScope \/ DipRegister \/ DipBody
